@@ -6,8 +6,9 @@ R05.3 un-tracking a dial (pending_connections.remove -> Some) implies a PeerStat
 R05.4 DialFailure / OpenFailure events are emitted only when the manager consumed the dial record
 """
 import re
+import guards
 from paths import Inter, refine_cuts, region_uncovered, region_second_hit, reachable_given
-from common import exit_desc, short, trait_impl_bodies, may_return_err, field_calls
+from common import for_loops, slice_locals, exit_desc, short, trait_impl_bodies, may_return_err, field_calls
 
 EXPLANATION = ("Per-function pairing obligations over all MIR CFG paths of the TransportManager: after PeerState has been put "
                "into a dialing state every exit commits (pending_connections.insert) or rolls back; each established / pending "
@@ -132,8 +133,9 @@ def r05_2(ctx, fx):
 
 
 def region_ends_of(fn, start):
+    """ends of the handling of one event: function exits, `start` itself, and the dispatch of the next select! iteration"""
     from paths import region_ends
-    return region_ends(fn, start)
+    return region_ends(fn, start) | {sw[0] for sw in fn.discr_switches() if sw[2].endswith("__tokio_select_util::Out")}
 
 
 def r05_3(ctx, fx):
@@ -242,6 +244,104 @@ def r05_6(ctx, fx):
 PSM = "transport::manager::peer_state::PeerState::"
 
 
+def r05_7(ctx, fx):
+    """dial_address refuses an address that does not end right after its `/p2p/<peer>` component: every SupportedTransport the
+    function settles on lies behind the None edge of an `Iter::next()` of the address (end of address).  The manager tracks the dial
+    under the LAST `/p2p/` component (PeerId::try_from_multiaddr) while the transports verify the FIRST one, so `/p2p/A/p2p/B` would
+    be tracked as a dial of B, answered by A, and end in a debug_assert!(false) (panic) or a peer stuck in Dialing."""
+    fn = ctx.fn(fx, TM + "dial_address::{closure#0}", "R05.7")
+    if fn is None:
+        return
+    aggs = fn.aggregates(r"manager::types::SupportedTransport$")
+    ctx.anchor("R05.7", "dial_address: SupportedTransport aggregates (%s)" % fx.cfg, len(aggs), 1, cfg=fx.cfg)
+    ends = []
+    for sw in fn.discr_switches():
+        if not sw[2].endswith("option::Option"):
+            continue
+        rs = guards.rootstrs(fn, {"c": list(sw[1])})
+        if any(x.startswith("call:") and re.search(r"multiaddr::Iter(<.*>)?( as std::iter::Iterator)?>?::next$", x) for x in rs):
+            for lab in fn.variant_edges(sw, "None"):
+                ends.append((sw[0], lab))
+    for n, s_ in aggs:
+        ok = any(fn.only_via(n, swn, [lab]) for swn, lab in ends)
+        ctx.ob("R05.7", "dial_address/%s-only-for-an-address-that-ends-after-/p2p" % s_["rv"].get("var"), ok, site=fn.site(n), cfg=fx.cfg,
+               detail="end-of-address tests found: %d" % len(ends))
+
+
+def r05_8(ctx, fx):
+    """dial(peer) waits only for transports that are installed: the transport set stored in `PeerState::Opening` (argument of
+    PeerState::dial_addresses) was filtered by membership in the installed transports, or the open loop has no path that skips a
+    transport without opening it.  A peer put into `Opening{WebSocket}` on a node without the WebSocket transport waits for an event
+    that no transport can produce: the accepted dial ends in silence and the peer can never be dialed again."""
+    fn = ctx.fn(fx, TM + "dial::{closure#0}", "R05.8")
+    if fn is None:
+        return
+    da = fn.calls(r"PeerState::dial_addresses$")
+    ctx.anchor("R05.8", "dial: PeerState::dial_addresses", len(da), 1, cfg=fx.cfg)
+    for c in da:
+        filtered = False
+        for r in fn.calls(r"HashMap(<.*>)?::retain$|HashSet(<.*>)?::retain$|Iterator>?::filter$"):
+            if not any(r.dest and r.dest[0] in slice_locals(fn, c.args[-1]) for _ in [0]) and "mutcall:" + r.name not in guards.rootstrs(fn, c.args[-1]):
+                continue
+            clo = r.args[-1].get("m") or r.args[-1].get("c")
+            for n_, k_, pl_ in (fn.defs().get(clo[0], []) if clo else []):
+                if k_ == "assign" and pl_["rv"]["r"] == "agg" and pl_["rv"].get("closure") and fx.has(pl_["rv"]["closure"]):
+                    body = fx.fn(pl_["rv"]["closure"])
+                    if body.calls(r"(IndexMap|HashMap)(<.*>)?::(contains_key|get)$|TransportContext::(get|get_mut|contains)$"):
+                        filtered = True
+        # alternative idiom: every iteration of the open loop opens (no skip)
+        opens = [x.node for x in fn.calls(r"Transport>?::open$|transport::Transport::open$")]
+        noskip = False
+        for lp in for_loops(fn):
+            body = fn.reach([x for x, l in fn.succs(lp[1][0]) if l in lp[3]], avoid=[lp[0].node])
+            if any(o in body for o in opens):
+                w = fn.witness_path([x for x, l in fn.succs(lp[1][0]) if l in lp[3]], [lp[0].node], avoid=opens)
+                noskip = w is None
+        ctx.ob("R05.8", "dial/Opening-waits-only-for-installed-transports", filtered or noskip, site=fn.site(c.node), cfg=fx.cfg,
+               detail="transport set filtered by the installed transports: %s; open loop without a skip path: %s" % (filtered, noskip))
+
+
+def r05_9(ctx, fx, which=("Reject", "DialPeer", "DialAddress")):
+    """no silence for dials the manager itself concludes.  Two places where the transports will never produce an event for an accepted
+    dial: (a) the manager rejects an established connection that is the outcome of an own dial (limits / per-peer state), the
+    transport drops it silently; (b) a DialPeer / DialAddress command (the handle already answered Ok to the protocol, which now waits
+    for ConnectionEstablished or DialFailure) is refused by TransportManager::dial / dial_address.  On both paths a DialFailure must be
+    produced (to the protocols and/or as TransportEvent)."""
+    fn = ctx.fn(fx, TM + "next::{closure#0}", "R05.9")
+    if fn is None:
+        return
+    reports = [n for n, _ in fn.aggregates(r"InnerTransportEvent$", "DialFailure")] + [n for n, _ in fn.aggregates(r"transport::TransportEvent$", "DialFailure")] \
+        + [c.node for c in fn.calls(r"TransportManager::report_dial_failure\w*$")]
+    start = fn.calls(r"TransportManager::on_connection_established$")
+    ctx.anchor("R05.9", "next: on_connection_established", len(start), 1, cfg=fx.cfg)
+    for s_ in (start if "Reject" in which else []):
+        cuts = refine_cuts(fn, s_, ["Ok", "Reject"])
+        r = fn.reach([s_.node], cut=cuts, after=True, stop=[s_.node]) if cuts else set()
+        rej = [c.node for c in fn.calls(r"transport::Transport::reject$") if c.node in r]
+        lis = set()   # inbound connections need no report: exclude the `endpoint.is_listener() == true` edges
+        for c in fn.calls(r"Endpoint::is_listener$"):
+            for sw_, t, f in fn.bool_tests(c.dest[0]):
+                lis.add((sw_, t))
+        # existence, not all-paths: a repair may legitimately be conditional (no report when another dial / connection still concludes
+        # the attempt); what is decided is that the Reject path of a dialer endpoint has a report site at all
+        rr = fn.reach(rej, cut=lis, after=True, stop=region_ends_of(fn, s_.node)) if rej else set()
+        ok = bool(rej) and any(x in rr for x in reports)
+        ctx.ob("R05.9", "next/established:Reject-of-an-own-dial-is-reported", ok, site=fn.site(rej[0]) if rej else fn.site(s_.node), cfg=fx.cfg,
+               detail="report sites after Transport::reject on the Reject path: %s" % [fn.site(x) for x in reports if rej and x in fn.reach(rej, after=True, stop=[s_.node])])
+    for meth, what in (("dial", "DialPeer"), ("dial_address", "DialAddress")):
+        if what not in which:
+            continue
+        cs = [c for c in fn.calls(r"TransportManager::%s$" % meth)]
+        ctx.anchor("R05.9", "next: %s command" % what, len(cs), 1, cfg=fx.cfg)
+        for c in cs:
+            # `self.dial(peer).await`: the Result is produced by the poll of the returned future; the handling of the command extends
+            # from the call to the next select! dispatch
+            r = fn.reach([c.node], after=True, stop=region_ends_of(fn, c.node))
+            ok = any(x in r for x in reports)
+            ctx.ob("R05.9", "next/%s:refused-command-is-reported-as-DialFailure" % what, ok, site=fn.site(c.node), cfg=fx.cfg,
+                   detail="the handle already returned Ok to the protocol; DialFailure report sites on the Err path: %s" % [fn.site(x) for x in reports if x in r])
+
+
 def r05_5(ctx, fx):
     """PeerState transition tables (the per-variant answers of the small pure methods, read off the discriminant switches):
     can_dial answers Ok exactly for Disconnected{dial_record: None}; dial_* enter a dialing state only over can_dial() == Ok;
@@ -306,9 +406,12 @@ def run(ctx):
     for cfg in ctx.configs():
         fx = ctx.facts(cfg)
         r05_1(ctx, fx)
+        r05_7(ctx, fx)
+        r05_8(ctx, fx)
         if cfg == "default":
             r05_2(ctx, fx)
             r05_3(ctx, fx)
             r05_4(ctx, fx)
             r05_6(ctx, fx)
+            r05_9(ctx, fx)
             r05_5(ctx, fx)
